@@ -134,7 +134,7 @@ thread_local! {
 pub static PROGRESS: std::sync::atomic::AtomicU64 = std::sync::atomic::AtomicU64::new(0);
 
 pub fn start_watchdog() {
-    let limit: u64 = std::env::var("VERIF_WATCHDOG_S").ok().and_then(|x| x.parse().ok()).unwrap_or(900);
+    let limit: u64 = std::env::var("VERIF_WATCHDOG_S").ok().and_then(|x| x.parse().ok()).unwrap_or(300);
     std::thread::spawn(move || {
         let mut last = PROGRESS.load(std::sync::atomic::Ordering::Relaxed);
         let mut since = std::time::Instant::now();
